@@ -320,6 +320,57 @@ func (w *etcdWorld) checkWatchStream(out *mc.SeqOut, ws *hx.WatchStream, start u
 	}
 }
 
+// ---- schedules: a watch opened at a past revision while a client writes ----
+//
+// The watch server answers a create request with a "created" response and runs the watch in its own
+// goroutine; a client discards events for a watch id it has not been told about.
+
+func c16WatchScenario(writes int) *mc.Scenario {
+	return &mc.Scenario{Name: fmt.Sprintf("C16/sched/watch-from-a-past-revision/concurrent-writes=%d", writes), Body: func(x *mc.X) {
+		out := &mc.SeqOut{}
+		w := newEtcdWorld(false)
+		defer w.close()
+		// two creates before the watch: step 0 = create of the first key, then create of the second key
+		for _, a := range []int{0, len(c16Kinds)} {
+			if !w.step(out, a) {
+				panic("setup failed: " + out.Viols[0].Detail)
+			}
+		}
+		start := uint64(base + 1)
+		ws := hx.NewWatchStream()
+		vrt.BeginExplore()
+		vrt.GoDaemon(func() { _ = w.srv.Watch(ws) })
+		t1 := vrt.Go(func() {
+			ws.Push(&pb.WatchRequest{RequestUnion: &pb.WatchRequest_CreateRequest{CreateRequest: &pb.WatchCreateRequest{Key: []byte("/r/"), RangeEnd: []byte("/r0"), PrevKv: true, StartRevision: int64(start)}}})
+		})
+		t2 := vrt.Go(func() {
+			for i := 0; i < writes; i++ {
+				// update-correct of the first key
+				w.step(out, 1)
+			}
+		})
+		vrt.Join(t1)
+		vrt.Join(t2)
+		vrt.Quiesce()
+		vrt.EndExplore()
+		created := false
+		for i, r := range ws.Sent {
+			if r.Created {
+				created = true
+			}
+			if len(r.Events) > 0 && !created {
+				w.fail(out, "watch-events-before-created", "response %d of the stream carries %d events for watch id %d before the created response for that id", i, len(r.Events), r.WatchId)
+			}
+		}
+		w.checkWatchStream(out, ws, start, "|concurrent-writer")
+		ws.Cancel()
+		vrt.Quiesce()
+		x.Viols = append(x.Viols, out.Viols...)
+		x.Obs = fmt.Sprintf("responses=%d", len(ws.Sent))
+		w.clean = true
+	}}
+}
+
 func c16Run(_ int, hist []int) *mc.SeqOut {
 	out := &mc.SeqOut{}
 	w := newEtcdWorld(true)
@@ -664,7 +715,7 @@ func init() {
 	mc.Register(&mc.Property{
 		ID:     "C16",
 		Level:  "model_checking",
-		Rule:   "(a) explicit-state BFS over histories of the four Kubernetes transaction shapes with correct / stale / zero expected revisions on 2 prefix-related keys through the real etcd RPC server (in-memory watch stream, leader role): success flag, failure-branch key-value, revisions, then every point and range read (7 bounds, every limit 0..n+1, every revision, count-only) compared with an etcd reference model, and the prefix watch's PUT/DELETE events with previous key-values; (b) every transaction of a grammar (0-2 compares over 4 targets x 4 results x 2 keys, 0-2 success operations out of 13 incl. flags and nested transactions, 0-1 failure operations; ~21 000 shapes) on 3 store states: only the four shapes on one key may be executed, everything else must return an error and leave the store byte-identical",
+		Rule:   "(a) explicit-state BFS over histories of the four Kubernetes transaction shapes with correct / stale / zero expected revisions on 2 prefix-related keys through the real etcd RPC server (in-memory watch stream, leader role): success flag, failure-branch key-value, revisions, then every point and range read (7 bounds, every limit 0..n+1, every revision, count-only) compared with an etcd reference model, and the prefix watch's PUT/DELETE events with previous key-values; (b) every transaction of a grammar (0-2 compares over 4 targets x 4 results x 2 keys, 0-2 success operations out of 13 incl. flags and nested transactions, 0-1 failure operations; ~21 000 shapes) on 3 store states: only the four shapes on one key may be executed, everything else must return an error and leave the store byte-identical; (c) every schedule (preemption-bounded) of a watch opened at a past revision against 1-2 concurrent updates: the created response precedes every event of its watch id and the events are exactly the changes from the start revision on",
 		Assume: []string{"Succeeded is not compared for the unguarded delete shape (Kubernetes reads only the previous key-value there)", "lease arguments are 0; CreateRevision / Version fields are not compared (the property names modification revisions)"},
 		Exec: func(j *mc.Job) *mc.JobResult {
 			if j.Kind == "grammar" {
@@ -672,7 +723,20 @@ func init() {
 			}
 			return mc.SeqExec(j, c16Run)
 		},
+		Scenarios: func(tier string) []*mc.Scenario {
+			return []*mc.Scenario{c16WatchScenario(1), c16WatchScenario(2)}
+		},
 		Drive: func(c *mc.Ctx) {
+			full := c.Deadline
+			c.Deadline = c.Start.Add(full.Sub(c.Start) / 4)
+			mc.DriveSchedules(c, func(i int, sc *mc.Scenario) mc.SchedPlan {
+				p := mc.SchedPlan{Class: "watch-from-a-past-revision", Bounds: []int{0, 1}, Shard: true}
+				if c.Tier == "thorough" {
+					p.Bounds = []int{0, 1, 2}
+				}
+				return p
+			})
+			c.Deadline = full
 			depth := 4
 			if c.Tier == "thorough" {
 				depth = 7
